@@ -7,5 +7,5 @@ mkdir -p "$ROOT/bin" "$ROOT/evidence"
 cd "$ROOT/harness"
 go build -tags verif -o "$ROOT/bin/vcheck" ./cmd/vcheck
 go build -tags verif -race -o "$ROOT/bin/vcheck-race" ./cmd/vcheck
-(cd "$ROOT/harness" && go test -count=1 ./internal/ref/ >/dev/null) || { echo "oracle self-tests failed"; exit 1; }
+(cd "$ROOT/harness" && go test -count=1 ./internal/ref/ ./internal/fw/ >/dev/null) || { echo "oracle self-tests failed"; exit 1; }
 echo "setup ok"
